@@ -17,6 +17,8 @@ def run_file(path, only=None, repo_root=None, verbose=False):
         c = S.REG.contracts[key]
         if only and only not in c.target:
             continue
+        if c.options.get("assumed"):
+            continue
         fr = V.verify(c)
         results.append(fr)
         if verbose:
